@@ -16,6 +16,33 @@ func optimizeQuery(m *cypher.RegularQuery) (optimize.Plan, error) { return optim
 // QueriesC02 is the query set of C02: the enumerated texts plus seeds that trigger the optimiser's AST rewrite rules
 // and the lowerings the feature grammar does not reach (taken from the repository's corpora; kinds reduced to the
 // four kinds of the graph domain).
+// AllQueries is the query set of both checks: the feature-grammar texts, the pattern family, the corpus queries and
+// (thorough, or quick with a smaller budget) their single-edit neighbourhood, plus the optimiser seeds.
+func AllQueries(tier string, k int) []Query {
+	out := QueriesC02(k)
+	seen := map[string]bool{}
+	for _, q := range out {
+		seen[q.Text] = true
+	}
+	add := func(qs []Query, extraNodes, maxEdges, budget int) {
+		for _, q := range qs {
+			if !seen[q.Text] {
+				seen[q.Text] = true
+				q.ExtraNodes, q.MaxEdges, q.Budget = extraNodes, maxEdges, budget
+				out = append(out, q)
+			}
+		}
+	}
+	if tier == "thorough" {
+		add(PatternFamily(3), 1, 4, 3000)
+		add(CorpusQueries(true), 0, 3, 2000)
+	} else {
+		add(PatternFamily(3), 1, 3, 400)
+		add(CorpusQueries(true), 1, 3, 200)
+	}
+	return out
+}
+
 func QueriesC02(k int) []Query {
 	out := Queries(k)
 	seen := map[string]bool{}
